@@ -133,6 +133,22 @@ def r02_2(ctx):
     nl = [(dn, ast.unparse(v).replace(' ', '')) for (dn, t, v) in q.assigns(init, 'self._number_left')]
     pos = [(dn, v) for (dn, v) in nl if v != '0']
     ok = len(pos) == 1 and pos[0][1] in CEIL_FORMS and q.has_guard(init, pos[0][0], '0 < chunksize', True)
+    if len(pos) == 1 and not ok:
+        # quotient and remainder taken with divmod(length, chunksize): q + bool(r), q + (1 if r else 0), or q bumped under `if r`
+        names = []
+        for st_ in walk_own(init.node):
+            if isinstance(st_, ast.Assign) and isinstance(st_.targets[0], ast.Tuple) and len(st_.targets[0].elts) == 2 and \
+                    isinstance(st_.value, ast.Call) and init.callee(st_.value) == 'divmod' and \
+                    [ast.unparse(a) for a in st_.value.args] == ['length', 'chunksize']:
+                names = [ast.unparse(e) for e in st_.targets[0].elts]
+        if len(names) == 2:
+            qn, rn = names
+            v = pos[0][1]
+            forms = {'%s+bool(%s)' % (qn, rn), 'bool(%s)+%s' % (rn, qn), '%s+(1if%selse0)' % (qn, rn),
+                     '%s+(%s!=0)' % (qn, rn), '%s+(%s>0)' % (qn, rn)}
+            bump = [dn for (dn, t, vv) in q.assigns(init, qn) if isinstance(dn.ast, ast.AugAssign) and
+                    ast.unparse(dn.ast.value) == '1' and q.has_guard(init, dn, rn, True)]
+            ok = (v in forms or (v == qn and len(bump) == 1)) and q.has_guard(init, pos[0][0], '0 < chunksize', True)
     ctx.ob('R02.2', 'MapResult:parts-awaited-is-ceiling', ok, init, pos[0][0] if pos else None,
            '_number_left = %s (accepted ceiling forms)' % (pos[0][1] if pos else '?'))
     zero = [dn for (dn, v) in nl if v == '0']
@@ -151,8 +167,10 @@ def r02_2(ctx):
     mr = q.nodes_calling(ma, 'MapResult')
     z = [dn for (dn, t, v) in q.assigns(ma, 'chunksize') if v is not None and not isinstance(v, ast.AugAssign)
          and ast.unparse(v) == '0']
-    emp = q.outcome_edges(ma, q.eq_text('len(iterable)', '0'), True)
-    ok = bool(z) and bool(emp) and all(q.has_guard(ma, n, q.eq_text('len(iterable)', '0'), True) for n in z)
+    # "the input is empty": len(iterable) == 0, read in its normal form `not iterable` (sa/normalize.py)
+    emp = q.outcome_edges(ma, q.eq_text('len(iterable)', '0'), True) | q.outcome_edges(ma, 'iterable', False)
+    ok = bool(z) and bool(emp) and all(q.has_guard(ma, n, q.eq_text('len(iterable)', '0'), True) or
+                                       q.has_guard(ma, n, 'iterable', False) for n in z)
     # the emptiness test is on every path to the MapResult, whatever chunksize was given
     tests = {a for (a, b, l) in emp}
     r = cfg.reach([cfg.entry.id], block_nodes=tests, include_src=True, skip_labels=('x',))
